@@ -460,6 +460,22 @@ static Result run_pair(const json &c) {
       r.fail("eeInteractor/rotation", fmt("E = %.17g, with independently rotated moments %.17g (tolerance %.3Lg)", eab, eo, tolR) + ctx);
       return r;
     }
+    // the rotation centre may be handed over as a reference to the site's own position (seg.Rotate(R, seg[0].getPos())):
+    // the result must be the one obtained with a copy of that position
+    {
+      StaticSite rc = sa, rd = sa, re = sb, rf = sb;
+      const Eigen::Vector3d centre_copy = sa.getPos();
+      rc.Rotate(Rm, rc.getPos());
+      re.Rotate(Rm, rc.getPos());  // second site about the (unchanged) position of the first
+      rd.Rotate(Rm, centre_copy);
+      rf.Rotate(Rm, centre_copy);
+      if ((rc.getPos() - rd.getPos()).cwiseAbs().maxCoeff() != 0.0 || (rc.Q() - rd.Q()).cwiseAbs().maxCoeff() != 0.0 ||
+          (re.getPos() - rf.getPos()).cwiseAbs().maxCoeff() > 64 * EPS * (1 + rf.getPos().cwiseAbs().maxCoeff())) {
+        r.fail("StaticSite/Rotate-aliased-centre", fmt("Rotate(R, site.getPos()) moves the site to (%.6g,%.6g,%.6g), with a copy of the centre to (%.6g,%.6g,%.6g)",
+                                                       rc.getPos()(0), rc.getPos()(1), rc.getPos()(2), rd.getPos()(0), rd.getPos()(1), rd.getPos()(2)) + ctx);
+        return r;
+      }
+    }
     // Rotate() itself: rotated spherical moments and position equal mine
     const StaticSite *rs[2] = {&ra, &rb};
     const SiteIn *os[2] = {&A2, &B2};
@@ -708,6 +724,37 @@ static Result run_field(const json &c) {
       if (fabsl(got - de) > 2e-12L * sc + 4 * EPS * fabsl(LD(acc0(al)))) {
         r.fail("eeInteractor/field-vs-energy-difference",
                fmt("target site %zu component %d: field term %.17Lg, E(mu+e)-E(mu) = %.17Lg", j, al, got, de));
+        return r;
+      }
+    }
+  }
+  // history: the same polar sites are reset and the field is applied a second time; the accumulators then hold exactly
+  // the field term of this application (statement: the accumulated term equals dE/dmu), nothing left over from before
+  for (size_t j = 0; j < S2.size(); ++j) seg2[Index(j)].Reset();
+  for (size_t j = 0; j < S2.size(); ++j) {
+    if (seg2[Index(j)].V().cwiseAbs().maxCoeff() != 0.0 || seg2[Index(j)].V_noE().cwiseAbs().maxCoeff() != 0.0) {
+      r.fail("PolarSite/Reset-leaves-field", fmt("site %zu: Reset() leaves V=(%.6g ..) V_noE=(%.6g ..)", j, seg2[Index(j)].V()(0), seg2[Index(j)].V_noE()(0)));
+      return r;
+    }
+  }
+  if (src_polar) {
+    if (noE)
+      ee.ApplyStaticField<PolarSegment, Estatic::noE_V>(pl1, seg2);
+    else
+      ee.ApplyStaticField<PolarSegment, Estatic::V>(pl1, seg2);
+  } else {
+    if (noE)
+      ee.ApplyStaticField<StaticSegment, Estatic::noE_V>(st1, seg2);
+    else
+      ee.ApplyStaticField<StaticSegment, Estatic::V>(st1, seg2);
+  }
+  for (size_t j = 0; j < S2.size(); ++j) {
+    Eigen::Vector3d acc = noE ? seg2[Index(j)].V_noE() : seg2[Index(j)].V();
+    for (int al = 0; al < 3; ++al) {
+      LD tolV = 1e-12L * v_scale[j][size_t(al)] + 1e-300L;
+      if (fabsl(LD(acc(al)) - v_want[j][size_t(al)]) > tolV) {
+        r.fail("eeInteractor/field-after-reset", fmt("target site %zu component %d: after Reset() and a second application the field term is %.17g, dE/dmu (oracle) = %.17Lg",
+                                                     j, al, acc(al), v_want[j][size_t(al)]));
         return r;
       }
     }
